@@ -276,4 +276,166 @@ theorem draw_sub_image_fuel_src_eq_model (fuel : Nat) (C : RawTy) (O : DataOrder
       obtain ⟨h1, h2, h3, h4, h5⟩ := hc
       refine ⟨⟨⟨⟨h1, h2⟩, h3⟩, ?_⟩, ?_⟩ <;> omega
 
+/-! ### enough fuel: the generated `draw` / `draw_sub_image` ARE the hand model's -/
+
+theorem iter_nth_data (it : Iter) (n : Nat) : (it.nth n).2.data = it.data ∧ (it.nth n).2.bits = it.bits := by
+  unfold Iter.nth; exact ⟨(iter_next_data _).1, (iter_next_data _).2.1⟩
+
+theorem cp_new_ok (im : Img.ImageRaw) (hb : validBits im.bits = true) (hf : Fits im.bits im.data) (size : Sz)
+    (skip rs : Nat) : (CP.new im size skip rs).Ok := by
+  have hd := cp_new_data im size skip rs
+  have hbits : (CP.new im size skip rs).iter.bits = im.bits := by
+    unfold CP.new; simp only; split
+    · exact (iter_nth_data _ _).2
+    · rfl
+  refine ⟨by rw [hbits]; exact hb, by rw [hbits, hd]; exact hf, ?_⟩
+  unfold CP.new; simp only
+  split <;> simp only <;> omega
+
+theorem cp_new_count (im : Img.ImageRaw) (size : Sz) (skip rs : Nat) :
+    (CP.new im size skip rs).remainingX + (CP.new im size skip rs).remainingY * (CP.new im size skip rs).width
+      = size.w * size.h := by
+  unfold CP.new; simp only
+  split
+  · rename_i h
+    obtain ⟨h', hh⟩ : ∃ h', size.h = h' + 1 := ⟨size.h - 1, by omega⟩
+    simp only [hh, Nat.add_sub_cancel, Nat.mul_succ, Nat.mul_comm h' size.w]; omega
+  · rename_i h
+    have : size.w = 0 ∨ size.h = 0 := by omega
+    rcases this with h0 | h0 <;> simp [h0]
+
+/-- Any fuel above `width * height` drains a fresh `ContiguousPixels` completely. -/
+theorem toListFuel_enough (im : Img.ImageRaw) (hb : validBits im.bits = true) (hf : Fits im.bits im.data) (size : Sz)
+    (skip rs fuel : Nat) (h : size.w * size.h < fuel) :
+    (CP.new im size skip rs).toListFuel fuel = (CP.new im size skip rs).toList := by
+  have hok := cp_new_ok im hb hf size skip rs
+  rw [CP.toList_eq _ hok]
+  apply CP.toListFuel_eq _ _ hok
+  have h1 := Img.somePrefix_length_le ((CP.new im size skip rs).indices.map
+    (load (CP.new im size skip rs).iter.bits (CP.new im size skip rs).iter.order (CP.new im size skip rs).iter.data))
+  rw [List.length_map, CP.indices_length, cp_new_count] at h1
+  unfold CP.rest
+  omega
+
+/-- **`ImageDrawable::draw` for `ImageRaw`** with any fuel above `width * height`: the calls of the hand model's
+`draw`, as they reach the root display through `tgt`. -/
+theorem draw_src_eq_model (fuel : Nat) (C : RawTy) (O : DataOrderTy) (s : ImgSrc.ImageRaw) (tgt : DrawTargetD)
+    (hw : BytesOk s.data) (hlen : FitsUsize s.data) (hu : IsU32 s.size) (hf : Fits (bits C) s.data)
+    (hfuel : s.size.w * s.size.h < fuel) :
+    ImgSrc.ImageRaw_ImageDrawable_draw fuel C O s tgt = (toIm C O s).draw.map tgt := by
+  rw [draw_fuel_src_eq_model fuel C O s tgt hw hlen hu, toListFuel_enough (toIm C O s) (bits_valid C) hf _ _ _ _ hfuel]
+  rfl
+
+/-- **`ImageDrawable::draw_sub_image` for `ImageRaw`** with any fuel above the image's `width * height`. -/
+theorem draw_sub_image_src_eq_model (fuel : Nat) (C : RawTy) (O : DataOrderTy) (s : ImgSrc.ImageRaw) (tgt : DrawTargetD)
+    (area : Rect) (hw : BytesOk s.data) (hlen : FitsUsize s.data) (hu : IsU32 s.size) (ha : IsI32 area.tl)
+    (hf : Fits (bits C) s.data) (hfuel : s.size.w * s.size.h < fuel) :
+    ImgSrc.ImageRaw_ImageDrawable_draw_sub_image fuel C O s tgt area = ((toIm C O s).drawSubImage area).map tgt := by
+  rw [draw_sub_image_fuel_src_eq_model fuel C O s tgt area hw hlen hu ha]
+  unfold Img.ImageRaw.drawSubImage
+  have e : (toIm C O s).size = s.size := rfl
+  rw [e]
+  by_cases hc : area.isZeroSized = true ∨ area.tl.x < 0 ∨ area.tl.y < 0 ∨ area.tl.x.toNat + area.size.w > s.size.w
+      ∨ area.tl.y.toNat + area.size.h > s.size.h
+  · rw [if_pos hc, if_pos hc]; rfl
+  · rw [if_neg hc, if_neg hc]
+    simp only [not_or] at hc
+    have hle : area.size.w * area.size.h ≤ s.size.w * s.size.h := Nat.mul_le_mul (by omega) (by omega)
+    rw [toListFuel_enough (toIm C O s) (bits_valid C) hf _ _ _ _ (by omega)]
+    rfl
+example : Fits 1 [0xAA, 0x00, 0x55] := by unfold Fits; decide
+
+/-! ### C09's headline theorems over the GENERATED functions -/
+
+/-- A generated image that is well formed in the sense of C09 (`WF` of its model image: what `ImageRaw::new` checks
+plus the range facts) and whose buffer satisfies the guards of the raw `load`. -/
+structure SrcWF (C : RawTy) (O : DataOrderTy) (s : ImgSrc.ImageRaw) : Prop where
+  wf : (toIm C O s).WF
+  bytes : BytesOk s.data
+  usz : FitsUsize s.data
+
+theorem SrcWF.isU32 {C : RawTy} {O : DataOrderTy} {s : ImgSrc.ImageRaw} (h : SrcWF C O s) : IsU32 s.size := by
+  have h1 := h.wf.wI32; have h2 := h.wf.hI32
+  have e : (toIm C O s).size = s.size := rfl
+  rw [e] at h1 h2
+  exact ⟨by omega, by omega⟩
+
+/-- What the generated `ImageRaw::new` accepts is `SrcWF` (given the range facts). -/
+theorem src_new_wf (C : RawTy) (O : DataOrderTy) (data : List Nat) (size : Sz) (s : ImgSrc.ImageRaw)
+    (h : ImgSrc.ImageRaw_new C O data size = .ok s) (hw : size.w ≤ 2147483647) (hh : size.h ≤ 2147483647)
+    (hf : Fits (bits C) data) (hb : BytesOk data) (hl : FitsUsize data) : SrcWF C O s := by
+  have hm := ImageRaw_new_src_eq_model C O data size
+  rw [h] at hm
+  have hwf := EG.C09.wf_of_new (bits C) (ord O) data size (toIm C O s) hm.symm (bits_valid C) hw hh hf
+  have hd : s.data = data := by
+    have := ((EG.C09.new_ok_iff _ _ _ _ _).mp hm.symm).2
+    exact congrArg Img.ImageRaw.data this
+  exact ⟨hwf, hd ▸ hb, hd ▸ hl⟩
+example : ImgSrc.ImageRaw_new .RawU1 .LittleEndianMsb0 [0xAA, 0x00, 0x55, 0xFF, 0xAA, 0x80] ⟨9, 3⟩ =
+    .ok ⟨[0xAA, 0x00, 0x55, 0xFF, 0xAA, 0x80], ⟨9, 3⟩⟩ := rfl
+
+/-- **`pixel` is `None` exactly outside the bounding box** (generated `pixel`, generated `size`). -/
+theorem src_pixel_none_iff (C : RawTy) (O : DataOrderTy) (s : ImgSrc.ImageRaw) (h : SrcWF C O s) (p : Pt) :
+    ImgSrc.ImageRaw_GetPixel_pixel C O s p = none ↔
+      (OriginDimensions_bounding_box (ImgSrc.ImageRaw_OriginDimensions_size C O s)).contains p = false := by
+  rw [pixel_src_eq_model C O s p h.bytes h.usz h.isU32]
+  exact EG.C09.pixel_none_iff (toIm C O s) h.wf p
+
+/-- **Inside, `pixel((x, y))` is the generated raw `load` at the padded index `x + y * data_width`.** -/
+theorem src_pixel_eq_load (C : RawTy) (O : DataOrderTy) (s : ImgSrc.ImageRaw) (h : SrcWF C O s) (p : Pt) :
+    ImgSrc.ImageRaw_GetPixel_pixel C O s p =
+      if (OriginDimensions_bounding_box (ImgSrc.ImageRaw_OriginDimensions_size C O s)).contains p = true then
+        RawData_load C O s.data (p.x.toNat + p.y.toNat * ImgSrc.ImageRaw_data_width C O s)
+      else none := by
+  rw [pixel_src_eq_model C O s p h.bytes h.usz h.isU32, data_width_src_eq_model C O s h.isU32.1,
+    load_src_eq_model C O s.data _ h.bytes h.usz]
+  exact EG.C09.pixel_eq_load (toIm C O s) h.wf p
+
+/-- **`draw_stream`** over the generated `draw` (any fuel above `width * height`): one `fill_contiguous` of the
+bounding box whose colours are the generated `pixel`s row-major, exactly `width * height` of them. -/
+theorem src_draw_stream (fuel : Nat) (C : RawTy) (O : DataOrderTy) (s : ImgSrc.ImageRaw) (tgt : DrawTargetD)
+    (h : SrcWF C O s) (hfuel : s.size.w * s.size.h < fuel) :
+    ∃ cs, ImgSrc.ImageRaw_ImageDrawable_draw fuel C O s tgt =
+        [tgt (Call.fillContiguous (OriginDimensions_bounding_box (ImgSrc.ImageRaw_OriginDimensions_size C O s)) cs)] ∧
+      cs.map some = (OriginDimensions_bounding_box (ImgSrc.ImageRaw_OriginDimensions_size C O s)).points.map
+        (ImgSrc.ImageRaw_GetPixel_pixel C O s) ∧
+      cs.length = s.size.w * s.size.h := by
+  obtain ⟨cs, h1, h2, h3⟩ := EG.C09.draw_stream (toIm C O s) h.wf
+  refine ⟨cs, ?_, ?_, h3⟩
+  · rw [draw_src_eq_model fuel C O s tgt h.bytes h.usz h.isU32 h.wf.fits hfuel, h1]; rfl
+  · rw [h2]
+    apply List.map_congr_left
+    intro p _
+    exact (pixel_src_eq_model C O s p h.bytes h.usz h.isU32).symm
+
+/-- **`draw_sub_image`** over the generated function: nothing unless the area is non-empty and inside the image ... -/
+theorem src_draw_sub_image_rejects (fuel : Nat) (C : RawTy) (O : DataOrderTy) (s : ImgSrc.ImageRaw) (tgt : DrawTargetD)
+    (a : Rect) (h : SrcWF C O s) (ha : IsI32 a.tl) (hfuel : s.size.w * s.size.h < fuel) (hr : ¬ (toIm C O s).Accepts a) :
+    ImgSrc.ImageRaw_ImageDrawable_draw_sub_image fuel C O s tgt a = [] := by
+  rw [draw_sub_image_src_eq_model fuel C O s tgt a h.bytes h.usz h.isU32 ha h.wf.fits hfuel,
+    EG.C09.draw_sub_image_rejects _ a hr]
+  rfl
+
+/-- ... and otherwise exactly the `width * height` generated `pixel`s of the area, row-major. -/
+theorem src_draw_sub_image_stream (fuel : Nat) (C : RawTy) (O : DataOrderTy) (s : ImgSrc.ImageRaw) (tgt : DrawTargetD)
+    (a : Rect) (h : SrcWF C O s) (ha : IsI32 a.tl) (hfuel : s.size.w * s.size.h < fuel) (hacc : (toIm C O s).Accepts a) :
+    ∃ cs, ImgSrc.ImageRaw_ImageDrawable_draw_sub_image fuel C O s tgt a = [tgt (Call.fillContiguous ⟨Pt.zero, a.size⟩ cs)] ∧
+      cs.map some = (Rect.points ⟨Pt.zero, a.size⟩).map (fun p => ImgSrc.ImageRaw_GetPixel_pixel C O s (a.tl + p)) ∧
+      cs.length = a.size.w * a.size.h := by
+  obtain ⟨cs, h1, h2, h3⟩ := EG.C09.draw_sub_image_stream (toIm C O s) h.wf a hacc
+  refine ⟨cs, ?_, ?_, h3⟩
+  · rw [draw_sub_image_src_eq_model fuel C O s tgt a h.bytes h.usz h.isU32 ha h.wf.fits hfuel, h1]; rfl
+  · rw [h2]
+    apply List.map_congr_left
+    intro p _
+    exact (pixel_src_eq_model C O s _ h.bytes h.usz h.isU32).symm
+example : (toIm .RawU1 .LittleEndianMsb0 ⟨[0xAA, 0x00, 0x55, 0xFF, 0xAA, 0x80], ⟨9, 3⟩⟩).Accepts ⟨⟨6, 1⟩, ⟨3, 2⟩⟩ := by decide
+
+/-- What the translator left out of src/image/*.rs is exactly this: `new_const` (a `panic!` arm and a struct pattern) and
+`translate_mut` (returns `&mut Self`). An added function or override in any impl of these files shows up here. -/
+theorem img_untranslated_pinned :
+    ImgSrc.untranslated =
+      [("impl Transform for Image", ["translate_mut"]),
+       ("impl ImageRaw", ["new_const"])] := by decide
+
 end EG.C09.Generated
